@@ -49,3 +49,64 @@ PROPS["C01"] = dict(
     assumptions=EXEC_ASSUME,
     design_ref="DESIGN.md section 5 C01",
 )
+
+PROPS["C09"] = dict(
+    pkg="exec", test="TestC09", engine="exec",
+    quick=dict(checks=4000, shards=2), thorough=dict(checks=320000, shards=16),
+    nt_floor=dict(quick=1500, thorough=100000),
+    must_classes=["strategy=R", "strategy=X"],
+    exhaustive_key="table_cases_enumerated", extra_max=["table_rows", "table_cases_enumerated"],
+    level="exploration",
+    technique="exhaustive enumeration of the @skip/@include truth table in a fixed context + rapid-generated contexts, differential against the reference executor, resolver call-log inclusion",
+    rule="Table = {absent, literal true/false, variable true/false, variable defaulted true/false} for @skip x the same for @include x both"
+         " textual orders x {field, inline fragment, fragment spread} = 255 rows. Part 1 enumerates every row on every selection of its kind"
+         " of a fixed 3-level context under each strategy (exhaustive). Part 2 draws a row and plants it in a rapid-generated schema/data/"
+         "document (any depth, inside lists, other directives around). Oracle: data equals the reference (present iff no @skip true and no"
+         " @include false) and every logged resolver call is one the reference reaches. Non-trivial = some selection carries both directives.",
+    level_text="The directive table itself is finite and is enumerated completely (exhaustive=true refers to that table in the fixed context);"
+               " the embedding contexts are sampled. Enumeration is the right level for the finite part, exploration for the contexts.",
+    level_note="Trusted: reference executor and fixtures' call log. Conditions that are null or non-boolean are outside the table.",
+    assumptions=EXEC_ASSUME,
+    design_ref="DESIGN.md section 5 C09",
+)
+
+PROPS["C05"] = dict(
+    pkg="exec", test="TestC05", engine="exec",
+    quick=dict(checks=6000, shards=3), thorough=dict(checks=320000, shards=16),
+    nt_floor=dict(quick=1500, thorough=80000),
+    must_classes=["strategy=R", "strategy=X", "leaf-unrepresentable", "leaf-borderline(shape-only)", "enum-undeclared-name",
+                  "list-rep=[]string", "list-rep=[]int", "list-rep=[]float64", "list-rep=[]time.Time"],
+    level="exploration",
+    technique="property-based testing with hostile resolver return values: schema-directed shape walk of the response + differential against a coercion table",
+    rule="C01-style generated schema/data/request where two thirds of the leaf values come from a hostile pool (every Go numeric kind and"
+         " boundary around +-2^31 / 2^63 / MaxFloat32, NaN, +-Inf, numeric and non-numeric strings, bool, []byte, map, list, struct, typed nil"
+         " pointer, Symbol, undeclared enum names, unparsable time strings) incl. typed slices of the wrong member kind; all three"
+         " strategies. Oracles: (1) walk of data against the schema: object/list/scalar representation or null; (2) clearly unrepresentable"
+         " values => null + exactly one error with that path; liberal conversions the repository's unit tests pin (numeric strings, numbers as"
+         " strings, 3.1 -> Int 3, seconds -> Time) are shape-checked only. Non-trivial = a hostile leaf is reached by the selection.",
+    level_text="Generated-input search with a validity predicate over the whole response plus a denotational table for leaf coercion.",
+    level_note="Trusted: the coercion classification table in harness/hx/refexec.go (LeafOut), derived from the property text and the pinned unit tests.",
+    assumptions=EXEC_ASSUME + ["borderline conversions (see rule) are not asserted beyond their JSON shape"],
+    design_ref="DESIGN.md section 5 C05",
+)
+
+PROPS["C06"] = dict(
+    pkg="exec", test="TestC06", engine="exec", own_loop=True,
+    quick=dict(checks=450, shards=3), thorough=dict(checks=32000, shards=16),
+    nt_floor=dict(quick=1500, thorough=80000),
+    must_classes=["fault-kind=err", "fault-kind=group", "fault-kind=ext", "fault-kind=nth", "fault-kind=coerce", "faults>=2",
+                  "failure-inside-list", "failure-with-named-fragment-in-play"],
+    level="fault_enumeration",
+    technique="fault injection: every reachable resolver invocation of each generated case is failed in turn (plus sampled pairs/triples); error paths and partial data compared with the reference executor",
+    rule="For each rapid-generated case (schema, data, request; Resolver / root-resolver / mixed strategies) the reference executor lists the"
+         " reachable (node, field) resolver invocations; each one is made to fail in turn with a plain error, a group of 1-3 errors, an error"
+         " with extensions, or (root resolver lists) a failing Nth at a drawn index; then 0-3 sampled pairs/triples; output-coercion failures"
+         " come from hostile leaves. Oracle: multiset of error paths == expected (one per failing invocation, k for a group), data == the"
+         " fault-free tree with exactly the failed positions null. Non-trivial = a failure at depth >= 2 or inside a list. evaluations counts"
+         " sub-cases (one per injected fault set).",
+    level_text="Single faults are enumerated exhaustively per generated case, multiple faults sampled; cases themselves are sampled.",
+    level_note="Trusted: reference executor; fixtures' fault injection. Resolvers that return a value together with an error are outside the generated"
+               " fault kinds (the repository pins that the value is kept).",
+    assumptions=EXEC_ASSUME + ["the same response key selected n times may yield 1..n entries for one failing position (ggql resolves each occurrence)"],
+    design_ref="DESIGN.md section 5 C06",
+)
